@@ -1,13 +1,19 @@
 #!/usr/bin/env bash
 # tools/mutant.sh <patch.diff> <ID> [<ID>...]: apply a patch to /repo, run the quick checks, revert.
 # Prints one line per check: "<ID> exit=<code>". Never leaves /repo modified.
+# The checks run from a scratch copy of /verif's working tree (default /tmp/veval, with its own
+# build directory), so that the evidence files under /verif are not overwritten by runs against
+# a modified tree and /verif can be edited meanwhile.
 set -u
 PATCH="$(realpath "$1")"; shift
+EVAL="${VERIF_EVAL_DIR:-/tmp/veval}"
+mkdir -p "$EVAL"
+rsync -a --delete --exclude '/harness/target' --exclude '/fuzz/target' --exclude '/.git' --exclude '/replays/C*/' /verif/ "$EVAL/"
 cd /repo || exit 2
 if ! git diff --quiet; then echo "/repo has uncommitted changes" >&2; exit 2; fi
 if ! git apply "$PATCH"; then echo "patch does not apply" >&2; exit 2; fi
 trap 'git -C /repo checkout -- . ' EXIT
 for id in "$@"; do
-  out="$(cd /verif && VERIF_SEED=${VERIF_SEED:-0} ./check "$id" quick 2>&1)"; code=$?
+  out="$(cd "$EVAL" && VERIF_SEED=${VERIF_SEED:-0} ./check "$id" "${VERIF_TIER_MUT:-quick}" 2>&1)"; code=$?
   echo "$id exit=$code $(echo "$out" | grep -m1 -A2 '^VIOLATION' | tr '\n' ' ' | cut -c1-300)"
 done
